@@ -36,3 +36,39 @@ pub fn vx_self_get_node_label_with_expanded_key<TC: Configuration, V: VRFKeyStor
 { unimplemented!() }
 pub type LabelInput = (AkdLabel, VersionFreshness, u64, AkdValue);
 pub open spec fn rv(v: Vec<(LabelInput, NodeLabel)>) -> Seq<(LabelInput, NodeLabel)> { v@ }
+
+// ---- completeness of the batch call (C18 / C01: EVERY tuple of the batch gets its pair, exactly once)
+// ASSUMED: the clone of a (label, freshness, version, value) tuple equals the tuple (derived / std Clone impls of its components)
+#[verifier::external_body]
+pub proof fn axiom_label_input_clone(a: LabelInput, b: LabelInput)
+    requires vstd::pervasive::cloned::<LabelInput>(a, b)
+    ensures a == b
+{}
+pub open spec fn label_of_tuple(key: VRFPrivateKey, t: LabelInput) -> NodeLabel { key_label(exp_of(key), pk_of(key), t.0.0@, t.1, t.2) }
+pub open spec fn pair_of(key: VRFPrivateKey, t: LabelInput) -> (LabelInput, NodeLabel) { (t, label_of_tuple(key, t)) }
+// the result is a rearrangement of the pairs of the batch: same length, and the pair of every tuple of the batch is in it
+pub open spec fn has_pair(res: Seq<(LabelInput, NodeLabel)>, p: (LabelInput, NodeLabel)) -> bool {
+    exists|k: int| 0 <= k < res.len() && #[trigger] res[k] == p
+}
+pub open spec fn all_paired(key: VRFPrivateKey, batch: Seq<LabelInput>, res: Seq<(LabelInput, NodeLabel)>) -> bool {
+    res.len() == batch.len() && forall|j: int| 0 <= j < batch.len() ==> has_pair(res, pair_of(key, #[trigger] batch[j]))
+}
+// ids handed out so far (`got`, in hand-out order) and ids still pending partition 0..n
+pub open spec fn partitions(got: Seq<int>, pending: Set<int>, n: int) -> bool {
+    &&& got.no_duplicates()
+    &&& forall|k: int| 0 <= k < got.len() ==> 0 <= #[trigger] got[k] < n
+    &&& forall|id: int| #[trigger] pending.contains(id) ==> 0 <= id < n && !got.contains(id)
+    &&& forall|id: int| 0 <= id < n && !got.contains(id) ==> #[trigger] pending.contains(id)
+}
+pub proof fn lemma_all_handed_out(got: Seq<int>, n: int)
+    requires got.no_duplicates(), n >= 0, forall|k: int| 0 <= k < got.len() ==> 0 <= #[trigger] got[k] < n, forall|id: int| 0 <= id < n ==> got.contains(id)
+    ensures got.len() == n
+{
+    assert(got.to_set() =~= vstd::set_lib::set_int_range(0, n)) by {
+        assert forall|x: int| got.to_set().contains(x) <==> vstd::set_lib::set_int_range(0, n).contains(x) by {
+            if got.contains(x) { let k = choose|k: int| 0 <= k < got.len() && got[k] == x; assert(0 <= got[k] < n); }
+        }
+    }
+    got.unique_seq_to_set();
+    vstd::set_lib::lemma_int_range(0, n);
+}
